@@ -1,6 +1,6 @@
 (* Corr/C09.v -- correspondence runner for C09: each case carries what the implementation did
    (passes::type_check::run, Expr::compute_ty, AstVm::eval(..).ty()); the model recomputes it. *)
-From TV Require Import Base.I32 Base.F32 Model.Ops Model.Expr Model.Typing Spec.TypingRules
+From TV Require Import Base.I32 Base.F32 Model.Ops Model.Expr Model.TypeCheck Spec.TypingRules
   Gen.OpTable Gen.OpClass Gen.TcDispatch Proofs.TypingExpr.
 Open Scope Z_scope.
 
@@ -188,3 +188,10 @@ Definition table_status : (bool * bool * list N * list N) * (ct_enum * call_zip)
   ((optypes_ok gen_optypes, walk_ok gen_tctable,
     map skind_code (bad_srows gen_tctable), map ikind_code (bad_irows gen_tctable)),
    (gen_ct_enum, gen_call_zip)).
+
+(* one pass: bit 0 = model differs from the implementation, bit 1 = reference typer differs from the
+   implementation, bits 2.. = the explanation (see [explain]) when the reference typer differs *)
+Definition verdict (c : c09case) : N :=
+  ((if model_of c then 0 else 1) +
+   (if spec_of c then 0 else 2 + 4 * explain c))%N.
+Definition verdicts (_ : N) (l : list c09case) : list N := map verdict l.
